@@ -180,6 +180,33 @@ def build_testbins(log, race=False):
     return ok
 
 
+def ensure_race_bins(log):
+    """Race-detector builds of the harness binaries (<bin>.race), rebuilt when /repo or the harness changed.
+    Used by components whose config says "race": True (thorough tier of C10)."""
+    st = load_stamp()
+    key = {"repo": repo_hash(), "harness": harness_hash()}
+    have = all(os.path.exists(os.path.join(BUILD, b + ".race")) for n, (p, b) in TESTBINS.items()
+               if n != "taskloop" or glob.glob(os.path.join(VERIF, "harness", "inpkg_taskloop", "*.go")))
+    if st.get("race") == key and have:
+        return True
+    ok = build_testbins(log, race=True)
+    st = load_stamp()
+    st["race"] = key if ok else None
+    save_stamp(st)
+    return ok
+
+
+def race_env(prop, comp):
+    """Environment for a race-detector run: reports go to build/race-<prop>-<comp>.<pid> and do not abort."""
+    base = os.path.join(BUILD, "race-%s-%s" % (prop, comp))
+    for f in glob.glob(base + ".*"):
+        try:
+            os.remove(f)
+        except OSError:
+            pass
+    return {"GORACE": "log_path=%s halt_on_error=0" % base}
+
+
 def prepare(log, force=False):
     """Bring generated Lean and harness binaries up to date with /repo's working tree."""
     os.makedirs(BUILD, exist_ok=True)
@@ -195,7 +222,7 @@ def prepare(log, force=False):
         info["gen"] = regenerate(log)
         info["harness_ok"] = build_testbins(log)
         info["regenerated"] = True
-        st = {"repo": rh, "harness": hh, "gen": info["gen"], "harness_ok": info["harness_ok"]}
+        st = {"repo": rh, "harness": hh, "gen": info["gen"], "harness_ok": info["harness_ok"], "race": st.get("race")}
         save_stamp(st)
     else:
         info["gen"] = st.get("gen", {"ok": True, "failures": []})
